@@ -42,7 +42,16 @@ class C08(Property):
              (REC, "Record.clear_regions"), (REC, "Record.clear_subregions"),
              (REC, "Record.clear_candidate_clusters"), (REC, "Record.clear_protoclusters"),
              (REC, "Record.get_cds_features"), (REC, "Record.get_cds_by_name"),
-             (REC, "Record.get_cds_features_within_regions"),
+             (REC, "Record.get_cds_features_within_regions"), (REC, "Record.add_feature"),
+             (FEAT + "cdscollection.py", "CDSCollection.__init__"),
+             (FEAT + "cdscollection.py", "CDSCollection.__contains__"),
+             (FEAT + "cdscollection.py", "_CDSCache.__contains__"),
+             (FEAT + "cdscollection.py", "_SectionedCDSTuple.index"),
+             (FEAT + "cdscollection.py", "_SectionedCDSTuple._lookup"),
+             (FEAT + "protocluster.py", "Protocluster.__init__"),
+             (FEAT + "subregion.py", "SubRegion.__init__"),
+             (FEAT + "candidate_cluster/structures.py", "CandidateCluster.__init__"),
+             (FEAT + "region/structures.py", "Region.__init__"),
              (FEAT + "cdscollection.py", "_CDSCache.features"),
              (FEAT + "cdscollection.py", "_CDSCache._regen_cache"),
              (FEAT + "cdscollection.py", "_SectionedCDSCache._regen_cache"),
@@ -355,6 +364,15 @@ class C08(Property):
             r = rng.random()
             if r < 0.2:
                 out.append(["peek_cds"])
+            elif r < 0.3 and all_ids and gene_ids:
+                out.append(["has", rng.choice(all_ids), rng.choice(gene_ids)])
+            elif r < 0.4 and all_ids and gene_ids:
+                aid, gid_ = rng.choice(all_ids), rng.choice(gene_ids)
+                out.append(["has", aid, gid_])
+                if rng.random() < 0.97:
+                    out.append(["index_if", aid, gid_])       # resolved below: asked only when listed (else IndexError)
+                else:
+                    out.append(["index", aid, gid_])
             elif r < 0.55 and all_ids:
                 out.append(["peek", rng.choice(all_ids)])
             elif r < 0.75:
@@ -529,19 +547,24 @@ class C08(Property):
             # the order add_region was called in (the record keeps its own order)
             return out
 
+        made = {i: self.make_cds(g) for i, g in genes.items()}     # the objects exist before they are added
         for step, op in enumerate(ops):
             try:
                 kind = op[0]
+                generic = (step + len(ops)) % 2 == 0       # half of the additions go through Record.add_feature
                 if kind == "cds":
-                    cds = self.make_cds(genes[op[1]])
+                    cds = made[op[1]]
                     model_ops.append(["cds", genes[op[1]]])
-                    rec.add_cds_feature(cds)
+                    (rec.add_feature if generic else rec.add_cds_feature)(cds)
                     cdses[op[1]] = cds
                 elif kind == "area":
                     obj = objs[op[1]]
                     model_ops.append(["area", descr[op[1]]])
-                    {"proto": rec.add_protocluster, "sub": rec.add_subregion,
-                     "cand": rec.add_candidate_cluster}[descr[op[1]]["kind"]](obj)
+                    if generic:
+                        rec.add_feature(obj)
+                    else:
+                        {"proto": rec.add_protocluster, "sub": rec.add_subregion,
+                         "cand": rec.add_candidate_cluster}[descr[op[1]]["kind"]](obj)
                 elif kind == "regions":
                     known = {id(r) for r in rec.get_regions()}
                     try:
@@ -580,6 +603,16 @@ class C08(Property):
                     model_ops.append(["name", op[1]])
                     cds = rec.get_cds_by_name(f"g{op[1]}")
                     log.append([[gid(cds), int(cds.location.start), int(cds.location.end)]])
+                elif kind == "has":
+                    model_ops.append(["has", op[1], op[2]])
+                    log.append([[1 if made[op[2]] in objs[op[1]] else 0]])
+                elif kind == "index":
+                    model_ops.append(["index", op[1], op[2]])
+                    log.append([[int(objs[op[1]].cds_children.index(made[op[2]]))]])
+                elif kind == "index_if":
+                    if made[op[2]] in objs[op[1]]:
+                        model_ops.append(["index", op[1], op[2]])
+                        log.append([[int(objs[op[1]].cds_children.index(made[op[2]]))]])
                 elif kind == "within_regions":
                     model_ops.append(["within_regions"])
                     log.append([sorted(gid(c) for c in rec.get_cds_features_within_regions())])
@@ -711,7 +744,7 @@ class C08(Property):
             bad = [i for i, ok in enumerate(drv.get("log_ok", [])) if not ok]
             if bad or len(drv.get("log_ok", [])) != len(first["log"]):
                 spec_ok = False
-                peeks = [o for o in first["model_ops"] if o[0] in ("peek_cds", "peek", "name", "within_regions")]
+                peeks = [o for o in first["model_ops"] if o[0] in ("peek_cds", "peek", "name", "within_regions", "has", "index")]
                 details.append(f"observation {bad[:1]} fails its spec: call {peeks[bad[0]] if bad else '?'} returned "
                                f"{first['log'][bad[0]] if bad else first['log']}")
             if first["log"]:
